@@ -13,6 +13,7 @@ from . import env
 VERIF = env.VERIF
 MAX_SAMPLES = 5
 MAX_BUCKETS_SHRUNK = 5
+MAX_FAILING_CASES = 25          # per shard: on a clearly broken tree there is no point in generating on
 
 
 # ------------------------------------------------------------------------------------------------
@@ -172,6 +173,9 @@ class Collector:
         self.shrink_bucket = shrink_bucket
         self.deadline = deadline
         self.best = None                # smallest failing case for shrink_bucket
+        self.failing_cases = 0
+        self.enough = False             # plenty of failing cases collected: stop generating (a clearly broken tree)
+        self.timed_out = False
 
     # -- used by stages
     def add(self, stage, case, res):
@@ -187,6 +191,10 @@ class Collector:
                 self.nontrivial.add(dg)
                 if len(self.samples) < MAX_SAMPLES:
                     self.samples.append(res.sample if res.sample is not None else stage.sample(case))
+        if res.discs and self.shrink_bucket is None:
+            self.failing_cases += 1
+            if self.failing_cases >= MAX_FAILING_CASES:
+                self.enough = True
         hit = None
         for bucket, msg in res.discs:
             e = self.discs.get(bucket)
@@ -207,12 +215,14 @@ class Collector:
     def check_deadline(self):
         if self.deadline is not None and time.time() > self.deadline:
             raise KeyboardInterrupt('shrink budget exhausted')
+        if self.enough:
+            raise KeyboardInterrupt('enough failing cases collected')
 
     def summary(self):
         return dict(
             evaluations=self.evaluations, sub_evals=self.sub_evals, nontrivial=sorted(self.nontrivial),
             samples=self.samples, labels=dict(self.labels), counters=dict(self.counters),
-            discs=self.discs, harness_errors=self.harness_errors)
+            discs=self.discs, harness_errors=self.harness_errors, timed_out=self.timed_out, stopped_early=self.enough)
 
 
 def safe_execute(stage, case):
@@ -267,6 +277,19 @@ def run_shard(prop_id, stage_name, tier, seed, shard, nshards, n, shrink_bucket=
     deadline = time.time() + budget if budget else None
     col = Collector(prop_id, stage_name, shrink_bucket, deadline)
     hseed = derive_seed(seed, prop_id, stage_name, shard)
+    # wall-clock guard per shard: a budget hit is "inconclusive" (or, when discrepancies were already collected, simply the end
+    # of the search), never by itself a violation
+    import signal
+    shard_budget = int(os.environ.get('WDV_SHARD_BUDGET', '0')) or (200 if tier == 'quick' else 5400)
+
+    def on_alarm(signum, frame):
+        col.timed_out = True
+        raise KeyboardInterrupt('shard budget exhausted')
+    try:
+        signal.signal(signal.SIGALRM, on_alarm)
+        signal.alarm(shard_budget if shrink_bucket is None else 0)
+    except (ValueError, AttributeError):
+        pass
     phases = (Phase.generate, Phase.shrink) if shrink_bucket is not None else (Phase.generate,)
     t0 = time.time()
     try:
@@ -293,6 +316,8 @@ def run_shard(prop_id, stage_name, tier, seed, shard, nshards, n, shrink_bucket=
                     col.add(stage, case, res)
                 except AssertionError:
                     break
+                if col.enough:
+                    break
         elif stage.kind == 'custom':
             stage.run(col, tier, hseed, nshards, shard)
         else:
@@ -301,7 +326,7 @@ def run_shard(prop_id, stage_name, tier, seed, shard, nshards, n, shrink_bucket=
         if shrink_bucket is None:
             raise
     except KeyboardInterrupt:
-        if shrink_bucket is None:
+        if shrink_bucket is None and not (col.enough or col.timed_out):
             raise
     except HarnessError as e:
         col.harness_errors.append(str(e))
@@ -310,6 +335,10 @@ def run_shard(prop_id, stage_name, tier, seed, shard, nshards, n, shrink_bucket=
             pass
         else:
             col.harness_errors.append(''.join(traceback.format_exception(type(e), e, e.__traceback__))[-3000:])
+    try:
+        signal.alarm(0)
+    except Exception:
+        pass
     s = col.summary()
     s['wall'] = time.time() - t0
     s['best'] = col.best
@@ -322,7 +351,7 @@ def _worker(args):
     except BaseException as e:
         return dict(evaluations=0, sub_evals=0, nontrivial=[], samples=[], labels={}, counters={}, discs={},
                     harness_errors=[''.join(traceback.format_exception(type(e), e, e.__traceback__))[-3000:]],
-                    wall=0, best=None)
+                    wall=0, best=None, timed_out=False, stopped_early=False)
 
 
 # ------------------------------------------------------------------------------------------------
@@ -454,6 +483,7 @@ def main(argv=None):
     import multiprocessing as mp
     ctx = mp.get_context('spawn')
     shrink_left = 90 if a.tier == 'quick' else 600      # seconds of shrinking per run, all buckets together
+    timed_out_shards = []
     for stage in prop.stages:
         if a.stage and stage.name not in a.stage:
             continue
@@ -474,6 +504,8 @@ def main(argv=None):
         discs = {}
         for i, s in enumerate(results):
             merge(total, s)
+            if s.get('timed_out'):
+                timed_out_shards.append('%s/%d' % (stage.name, i))
             for bucket, e in s['discs'].items():
                 cur = discs.get(bucket)
                 if cur is None or e['size'] < cur['size']:
@@ -517,6 +549,10 @@ def main(argv=None):
             print('VIOLATION property=%s replay=%s' % (prop_id, os.path.relpath(path, VERIF)))
             seen_paths.add(path)
         rc = 1
+    if timed_out_shards:
+        print('INCONCLUSIVE property=%s shard time budget exhausted in %s' % (prop_id, ', '.join(timed_out_shards)), file=sys.stderr)
+        if rc == 0:
+            rc = 2
     if total['harness_errors']:
         for h in total['harness_errors'][:5]:
             print('HARNESS-ERROR property=%s %s' % (prop_id, h), file=sys.stderr)
